@@ -160,7 +160,7 @@ func processRule(ruleId string, chainOffset uint8, dataFilePath string, ctxt *pr
 	regex := runAssemble(dataFilePath)
 
 	rulePrefix := ruleId[:3]
-	matches, err := filepath.Glob(fmt.Sprintf("%s/*-%s-*", ctxt.RootContext().RulesDir(), rulePrefix))
+	matches, err := filepath.Glob(fmt.Sprintf("%s/*-%s-*", globEscape(ctxt.RootContext().RulesDir()), rulePrefix))
 	if err != nil {
 		logger.Fatal().Err(err).Msgf("Failed to find rule file for rule id %s", ruleId)
 	}
